@@ -50,9 +50,17 @@ class Ctx:
                                   "impl": [decode_line(l)[:200] for l in impl.get(cid, [])[:40]]})
 
     # ---- sequential differential stream
-    def seq(self, stream, cases, relevant=None, triggers=(), monitor=None, always_monitor=False):
+    def seq(self, stream, cases, relevant=None, triggers=(), monitor=None, always_monitor=False, model_free=False):
         tag = "%s-%s" % (self.pid, stream)
-        bad, impl, model = seqdiff(tag, cases, relevant)
+        if model_free:
+            # a stream with ops the sequential model has no counterpart for (CANCEL at a chosen scheduler
+            # turn): the implementation alone runs and the monitor decides.
+            d = workdir(tag)
+            write_cases(os.path.join(d, "cases.txt"), cases)
+            run_impl_seq(os.path.join(d, "cases.txt"), os.path.join(d, "impl.out"))
+            bad, impl, model = [], parse_results(os.path.join(d, "impl.out")), {}
+        else:
+            bad, impl, model = seqdiff(tag, cases, relevant)
         self.note_cases(stream, cases, impl, triggers)
         self.stats["traces"] += len(cases) - len(bad)
         out = []
@@ -310,11 +318,14 @@ def seeded(cases):
     return out
 
 
-def eng_data_random(mon, triggers, relevant=DATA_OPS, streams=False, nq=250, nt=6000, tag="data-random"):
+def eng_data_random(mon, triggers, relevant=DATA_OPS, streams=False, nq=250, nt=6000, tag="data-random", drain=False,
+                    always=False):
     def eng(ctx):
         w = gen.merge(gen.W_DATA, {"CS": 1, "DS": 1, "DT": 1, "CT": 1}, gen.W_STREAM if streams else {})
         cases = seeded(gen.random_cases(ctx.seed * 1000 + 7, ctx.n(nq, nt), w, "r", allow_streams=streams))
-        return ctx.seq(tag, cases, relevant=relevant, triggers=triggers, monitor=mon)
+        if drain:
+            cases = [(c, gen.with_drain(o)) for c, o in cases]
+        return ctx.seq(tag, cases, relevant=relevant, triggers=triggers, monitor=mon, always_monitor=always)
     eng.__name__ = "eng_" + tag.replace("-", "_")
     return eng
 
@@ -328,11 +339,14 @@ def eng_data_enum(mon, triggers, relevant=DATA_OPS, dq=3, dt=4):
     return eng
 
 
-def eng_control_random(mon, triggers, relevant=CTL_OPS | DATA_OPS, nq=250, nt=6000):
+def eng_control_random(mon, triggers, relevant=CTL_OPS | DATA_OPS, nq=250, nt=6000, drain=False, always=False):
     def eng(ctx):
         w = gen.merge(gen.W_CONTROL, {"PUB": 3, "PULL": 3, "ACK": 1, "ADV": 1, "STATS": 2})
         cases = seeded(gen.random_cases(ctx.seed * 1000 + 11, ctx.n(nq, nt), w, "c", n_ops=(10, 45)))
-        return ctx.seq("control-random", cases, relevant=relevant, triggers=triggers, monitor=mon)
+        if drain:
+            cases = [(c, gen.with_drain(o)) for c, o in cases]
+        return ctx.seq("control-drain" if drain else "control-random", cases, relevant=relevant, triggers=triggers,
+                       monitor=mon, always_monitor=always)
     return eng
 
 
@@ -482,8 +496,18 @@ SEQ_NOTE = ("The theorems are about the Coq model; the model is tied to /repo on
             "case) and comparing every relevant result line. Schedules are those of one request at a time run to "
             "quiescence; interleavings of concurrent requests are the business of the concurrent models.")
 
-reg("C02", [eng_data_enum(M.mon_ack_final, {"ACK"}), eng_data_random(M.mon_ack_final, {"ACK"}, streams=True, tag="data-stream-random")],
-    rule="data-enum: every sequence over {pub, pub2, pull1, pullN, ack-last, ack-first, ack-unknown, nack, modify, +5.1s, +10.1s} "
+def eng_id_lists(mon, kinds):
+    def eng(ctx):
+        cases = [c for c in gen.id_list_cases() if c[0].split("-")[1] in kinds]
+        return ctx.seq("id-lists", cases, relevant=DATA_OPS, triggers={"ACK", "MOD", "SS", "SR"}, monitor=mon)
+    eng.__name__ = "eng_id_lists"
+    return eng
+
+
+reg("C02", [eng_id_lists(M.mon_ack_final, ("ack", "sack")), eng_data_enum(M.mon_ack_final, {"ACK"}),
+            eng_data_random(M.mon_ack_final, {"ACK"}, streams=True, tag="data-stream-random")],
+    rule="id-lists: Acknowledge (unary and streaming) with every id list of length 1..3 over {stale, live, live, unknown, "
+         "oddly spelled live}, then expiry and drain; data-enum: every sequence over {pub, pub2, pull1, pullN, ack-last, ack-first, ack-unknown, nack, modify, +5.1s, +10.1s} "
          "up to the depth noted, STATS after every step, final drain; data-stream-random: random scripts with unary and "
          "streaming acks. distinct = distinct op lists; non-trivial = contains an Acknowledge answered OK",
     monitor=M.mon_ack_final, title="Acknowledgement is final and affects only that delivery", design_ref="7/C02",
@@ -498,9 +522,11 @@ reg("C02", [eng_data_enum(M.mon_ack_final, {"ACK"}), eng_data_random(M.mon_ack_f
 
 reg("C03", [eng_data_random(M.mon_exclusive, {"PULL"}, tag="data-random"),
             eng_data_random(M.mon_exclusive, {"SR", "PULL"}, streams=True, tag="data-stream-random"),
-            eng_data_enum(M.mon_exclusive, {"PULL"})],
+            eng_data_enum(M.mon_exclusive, {"PULL"}),
+            eng_deadline_probes((None,), M.mon_exclusive, "lease-probes")],
     rule="random scripts with pulls of several sizes, nacks, expiry and streams on one subscription; exhaustive short "
-         "sequences. non-trivial = contains a Pull/stream response with at least one message",
+         "sequences; lease-probes: two leases handed out 40/70 ms apart at every phase of the 100 ms deadline grid, a "
+         "third consumer pulling 1 ms before, at and 1 ms after each deadline. non-trivial = contains a Pull/stream response with at least one message",
     monitor=M.mon_exclusive, title="A delivered message is exclusively leased until its deadline", design_ref="7/C03",
     technique="Coq: fresh ack ids over all turn sequences, lease persistence, pull never hands out a leased message; "
               "differential correspondence",
@@ -523,7 +549,7 @@ reg("C04", [eng_deadline_pure, eng_deadline_probes((None,), M.mon_deadline, "dea
                "has fired by the first 1 ms tick at/after the deadline and then nothing overdue stays leased. " + SEQ_NOTE,
     level_note="Timer behaviour (1 ms ticks, firing order) is tokio's, assumed as modelled; validated by the probe stream.")
 
-reg("C05", [eng_deadline_pure, eng_deadline_probes((0, 1, 5, 30, 599, 600, 700, -1), M.mon_deadline, "modify-probes"),
+reg("C05", [eng_id_lists(M.mon_deadline, ("nack", "mod")), eng_deadline_pure, eng_deadline_probes((0, 1, 5, 30, 599, 600, 700, -1), M.mon_deadline, "modify-probes"),
             eng_data_random(M.mon_deadline, {"MOD"}, streams=True, tag="data-stream-random"),
             eng_data_enum(M.mon_deadline, {"MOD"})],
     rule="DX: parse of every boundary i32 and random values; modify-probes: a lease modified with N in "
@@ -556,13 +582,13 @@ def eng_racing_namespace(ctx):
                    monitor=M.mon_racing_namespace, always_monitor=True)
 
 
-reg("C10", [eng_control_random(None, {"CT", "CS"}), eng_names_echo, eng_racing_namespace],
+reg("C10", [eng_control_random(M.mon_namespace, {"CT", "CS"}, always=True), eng_names_echo, eng_racing_namespace],
     rule="random control-plane scripts over 2 projects x 3 topics x 4 subscriptions with deletions, re-creations, "
          "cross-project and malformed names, interleaved with data-plane calls; racing-namespace: two or three clients "
          "that each do create-then-get or delete-then-get on ONE name, started without letting the runtime settle "
          "(seeded), with publishers keeping the topic busy - statuses are read off the answers on every case. "
          "non-trivial = a successful create",
-    monitor=None, title="Topic and subscription namespaces behave as atomic maps", design_ref="7/C10",
+    monitor=M.mon_namespace, title="Topic and subscription namespaces behave as atomic maps", design_ref="7/C10",
     technique="Coq: inductive control-plane invariant over all server histories, status/effect theorem per operation; "
               "differential correspondence of status codes and bodies",
     level_text="Proved for every reachable state: unique names and ids, creation order, exact attachment lists and registry; "
@@ -571,10 +597,11 @@ reg("C10", [eng_control_random(None, {"CT", "CS"}), eng_names_echo, eng_racing_n
     level_note="Linearizability under truly concurrent requests is argued from the single lock-protected step per "
                "operation (DESIGN 7/C10) and not yet a Coq theorem.")
 
-reg("C11", [eng_control_random(None, {"DT", "DS"}), eng_data_random(None, {"DS", "DT"}, relevant=CTL_OPS | DATA_OPS, tag="data-random")],
+reg("C11", [eng_control_random(M.mon_namespace, {"DT", "DS"}, always=True),
+            eng_data_random(M.mon_namespace, {"DS", "DT"}, relevant=CTL_OPS | DATA_OPS, tag="data-random", always=True)],
     rule="random scripts deleting and re-creating topics and subscriptions with publishes and pulls in between; "
          "ListTopicSubscriptions / GetSubscription / STATS after deletions. non-trivial = a successful delete",
-    monitor=None, title="Deletion keeps topics and subscriptions consistent with each other", design_ref="7/C11",
+    monitor=M.mon_namespace, title="Deletion keeps topics and subscriptions consistent with each other", design_ref="7/C11",
     technique="Coq: attachment invariant over all histories; differential correspondence",
     level_text="Proved for every reachable state: a live topic lists exactly the live subscriptions created on that instance; "
                "DeleteSubscription removes it from every list; DeleteTopic keeps the subscriptions, which then report the "
@@ -617,11 +644,36 @@ reg("C17", [eng_malformed, eng_names_pure, eng_codec_pure],
                "messages change no resource. Totality holds by construction (the model is a total function). " + SEQ_NOTE,
     level_note="Absence of panics in the Rust is checked by the harness (panic hook, hang detector), not proved.")
 
-reg("C01", [eng_data_random(M.mon_payload, {"PUB"}, streams=True, tag="data-stream-random"),
-            eng_control_random(M.mon_payload, {"PUB"}), eng_data_enum(M.mon_payload, {"PUB"})],
-    rule="random scripts with several subscriptions per topic, nack/expiry cycles, deletions and re-creations, final "
-         "drain in the enumerated stream. non-trivial = a Publish answered with ids",
-    monitor=M.mon_payload, title="Fan-out without loss", design_ref="7/C01",
+def mon_c01(ops, lines):
+    return M.mon_fanout(ops, lines) or M.mon_payload(ops, lines)
+
+
+def eng_capacity_drain(ctx):
+    """Large backlogs against large and small batch limits, each followed by a full drain (nothing may be lost
+    whatever the batch sizes were)."""
+    backlogs = [999, 1000, 1001, 1500] if not ctx.thorough else [999, 1000, 1001, 1500, 2500, 65535, 65541]
+    maxes = [1, 1000, 1001, 1400, 65535, 65537, 2147483647]
+    cases = seeded(gen.capacity_cases(backlogs, maxes, prefix="capd", drain=True))
+    out = ctx.seq("capacity-drain", cases, relevant={"PULL", "STATS", "PUB", "PUBN"}, triggers={"PULL"}, monitor=mon_c01,
+                  always_monitor=True)
+    if out:
+        return out
+    cases = seeded([(c, gen.with_drain(o, pulls=5)) for c, o in
+                    gen.stream_capacity_cases([5, 1001, 1500], [0, 1, 1000, 1001, 1400, 65535])])
+    return ctx.seq("stream-capacity-drain", cases, relevant={"SO", "SR", "STATS", "PULL"}, triggers={"SR"},
+                   monitor=mon_c01, always_monitor=True)
+
+
+reg("C01", [eng_data_random(mon_c01, {"PUB"}, streams=True, tag="data-stream-drain", drain=True, always=True),
+            eng_control_random(mon_c01, {"PUB"}, drain=True, always=True), eng_data_enum(M.mon_payload, {"PUB"}),
+            eng_capacity_drain],
+    rule="random scripts with several subscriptions per topic, streams, nack/expiry cycles, deletions and re-creations of "
+         "topic and subscription names, each followed by a drain (every lease left to run out, every stream read, every "
+         "subscription pulled until an empty answer): mon_fanout reads off the implementation's answers that nothing "
+         "foreign was delivered and nothing posted and unacknowledged is missing from the drain; capacity-drain: "
+         "backlogs around 1000/1500 (thorough: 65535+) against batch limits 1..i32::MAX, then the drain. "
+         "non-trivial = a Publish answered with ids",
+    monitor=mon_c01, title="Fan-out without loss", design_ref="7/C01",
     technique="Coq: conservation of messages per subscription over all turn sequences, publish posts to exactly the "
               "attached subscriptions (attachment invariant); differential correspondence",
     level_text="Proved: a Publish appends the batch to exactly the subscriptions created on that topic instance and still "
@@ -770,12 +822,19 @@ def eng_delete_release(ctx):
     return ctx.seq("delete-release", cases, relevant=WAIT_OPS | {"GS", "LTS"}, triggers={"DS"}, monitor=M.mon_release)
 
 
-reg("C06", [eng_wait_enum, eng_wait_random(M.mon_wait, {"SR", "JOIN"})],
+def eng_cancel_woken(ctx):
+    cases = gen.cancel_woken_cases(range(0, ctx.n(60, 160)))
+    return ctx.seq("cancel-woken", cases, triggers={"JOIN"}, monitor=M.mon_wait, always_monitor=True, model_free=True)
+
+
+reg("C06", [eng_wait_enum, eng_wait_random(M.mon_wait, {"SR", "JOIN"}), eng_cancel_woken],
     rule="wait-enum: every combination of up to three waiting consumers (stream limit 1 / stream limit 10 / blocked "
          "Pull limit 1 / blocked Pull limit 5) x five sequences of availability events (publish 1/3/0, nack, expiry, "
          "ack), every consumer and STATS observed after each event; wait-random: random scripts with several "
-         "streams and blocked Pulls per subscription, deletions and expiry. non-trivial = a waiting consumer received "
-         "messages",
+         "streams and blocked Pulls per subscription, deletions and expiry; cancel-woken: two blocked Pulls, a Publish "
+         "wakes the older one which is cancelled k scheduler yields later (k = 0..59/159, with and without 20 other calls "
+         "queued on the subscription) - no model comparison, the lost-wake-up monitor reads every case. non-trivial = a "
+         "waiting consumer received messages",
     monitor=M.mon_wait, title="Waiting consumers are woken when a message becomes available", design_ref="7/C06",
     technique="Coq: the serving loop of the quiescent model terminates by exhaustion of messages or of waiters "
               "(induction on fuel with the explicit measure), availability always makes the actor run; differential "
